@@ -391,3 +391,61 @@ pub fn exhaustive_history_unit<S: Spec>(
 pub fn default_deadline(tier: &str) -> Instant {
     Instant::now() + Duration::from_secs(if tier == "thorough" { 3 * 3600 } else { 1500 })
 }
+
+/// Generic structural shrinking of an operation list: delete chunks, then try the per-element
+/// simplifications offered by `simplify`, to a fixpoint or until `budget` evaluations.
+pub fn shrink_seq<T: Clone>(
+    ops: Vec<T>,
+    simplify: impl Fn(&T) -> Vec<T>,
+    mut fails: impl FnMut(&[T]) -> bool,
+    budget: usize,
+) -> Vec<T> {
+    let mut cur = ops;
+    let mut evals = 0usize;
+    let mut progress = true;
+    while progress && evals < budget {
+        progress = false;
+        let mut chunk = (cur.len() / 2).max(1);
+        loop {
+            let mut i = 0;
+            while i < cur.len() && evals < budget {
+                let end = (i + chunk).min(cur.len());
+                let mut cand = cur.clone();
+                cand.drain(i..end);
+                evals += 1;
+                if fails(&cand) {
+                    cur = cand;
+                    progress = true;
+                } else {
+                    i += chunk;
+                }
+            }
+            if chunk == 1 || evals >= budget {
+                break;
+            }
+            chunk /= 2;
+        }
+        let mut i = 0;
+        while i < cur.len() && evals < budget {
+            let mut improved = false;
+            for c in simplify(&cur[i]) {
+                if evals >= budget {
+                    break;
+                }
+                let mut cand = cur.clone();
+                cand[i] = c;
+                evals += 1;
+                if fails(&cand) {
+                    cur = cand;
+                    improved = true;
+                    progress = true;
+                    break;
+                }
+            }
+            if !improved {
+                i += 1;
+            }
+        }
+    }
+    cur
+}
